@@ -200,7 +200,7 @@ Denote(cs) ==
 
 (* ------------------------------------------------------------- judgement *)
 (* Observed probes (all fields always present):                            *)
-(*  PLit [k, nforms, form, hasType, type, itype, base, rid, ver, frag, uri, str] *)
+(*  PLit [k, nforms, form, hasType, type, itype, base, rid, ver, frag, uri, str, uriv, prefer] *)
 (*  PId  [k, type, rid, ver, str]     PStr [k, s]     PBool [k, b]          *)
 (*  PCan [k, url, ver, frag, str]                                          *)
 (*  k: "ok" | "err" | "panic" | "timeout" | "skip" (prerequisite missing)   *)
@@ -213,9 +213,13 @@ LitComps(p) ==
   CASE p.form = "rest" -> Rest(p.itype, p.base, p.rid, p.ver)      \* itype: the type inside the Identity
     [] p.form = "frag" -> Frag(p.frag)
     [] OTHER -> NonRest(p.uri)
+(* the other accessors of a LiteralInfo agree with URIString and the identity *)
+LitAccessorsOk(p) ==
+  /\ p.uriv = p.str
+  /\ p.prefer = (IF p.form = "rest" THEN RelText(LitComps(p)) ELSE "")
 LitEq(p, c) ==
   /\ p.k = "ok" /\ p.nforms = 1 /\ p.form = c.form
-  /\ LitComps(p) = c
+  /\ LitComps(p) = c /\ LitAccessorsOk(p)
   /\ (c.form = "rest" => p.hasType /\ p.type = c.type)           \* type: LiteralInfo.Type()
 SameLit(p, q) ==
   /\ p.k = "ok" /\ q.k = "ok" /\ p.form = q.form /\ LitComps(p) = LitComps(q)
@@ -227,7 +231,7 @@ SameId(p, q) == p.k = "ok" /\ q.k = "ok" /\ p.type = q.type /\ p.rid = q.rid /\ 
 (* (canonical form) and re-parses to the same information                   *)
 TextAgrees(str, text, red) == str = text \/ (red /\ Squeeze(str) = Squeeze(text))
 LitConsistent(text, red, p1, p2) ==
-  /\ p1.k = "ok" /\ p1.nforms = 1
+  /\ p1.k = "ok" /\ p1.nforms = 1 /\ LitAccessorsOk(p1)
   /\ p1.str = Format(LitComps(p1))
   /\ TextAgrees(p1.str, text, red)
   /\ SameLit(p2, p1)
@@ -307,7 +311,8 @@ CaseClass(cs, d) ==
     [] cs.kind = "canon" -> "canon:" \o (IF cs.type = "" THEN "" ELSE TypeClass(cs.type) \o ":") \o cs.basec \o "," \o cs.verc \o "," \o cs.ridc
     [] cs.kind = "raw"   -> "raw:" \o cs.x
                             \o (IF d.want.k = "ok" /\ d.want.c.form = "rest" THEN ":" \o TypeClass(d.want.c.type) ELSE "")
-                            \o (IF d.text = "" THEN ":empty" ELSE IF Ch(d.text, 1) \in {"#", "|"} THEN ":nourl" ELSE "")
+                            \o (IF d.text = "" THEN ":empty" ELSE IF Ch(d.text, 1) \in {"#", "|"} THEN ":nourl"
+                                ELSE IF StartsWith(d.text, "http:///") \/ StartsWith(d.text, "https:///") THEN ":noauthority" ELSE "")
     [] cs.kind = "pool"  -> "pool:" \o TypeClass(cs.type) \o "," \o TypeClass(cs.x)
     [] OTHER -> cs.kind
 
@@ -370,8 +375,8 @@ ChecksLitFmt(o, cs, d) ==
                    ELSE IF w.k = "ok" /\ d.baseStrict /\ ~(LitEq(w, c) /\ w.str = d.text) THEN "wrong-components"
                    ELSE IF w.k = "ok" /\ d.baseSlashed
                            /\ ~(/\ w.form = "rest" /\ w.type = cs.type /\ w.rid = cs.rid /\ w.ver = cs.ver
-                                /\ w.base \in {cs.base, CanonBase(cs.base)}
-                                /\ w.str = w.base \o "/" \o rel) THEN "wrong-components"
+                                /\ w.base \in {cs.base, CanonBase(cs.base)}                  \* canonical form or as given
+                                /\ w.str \in {cs.base \o "/" \o rel, CanonBase(cs.base) \o "/" \o rel}) THEN "wrong-components"
                    ELSE "") >>
 
 (* ---- "identurl": reference.IdentityFromURL / FromAbsoluteURL /             *)
@@ -381,9 +386,22 @@ ChecksIdentURL(o, cs, d) ==
       isRest == sp.k = "ok" /\ sp.c.form = "rest"
       rp == d.relwant
       relRest == rp.k = "ok" /\ rp.c.form = "rest" /\ rp.c.base = ""
+      relv == IdParseVerdict(o.rel, o.rel2, relRest, rp.c)
   IN << Chk("url", IdParseVerdict(o.url, o.url2, isRest, sp.c)),
         Chk("abs", IdParseVerdict(o.abs, o.abs2, isRest /\ sp.c.base # "", sp.c)),
-        Chk("rel", IdParseVerdict(o.rel, o.rel2, relRest, rp.c)) >>
+        (* a relative URI carries every component of the identity, so what is accepted formats back to the input *)
+        Chk("rel", IF relv # "" THEN relv
+                   ELSE IF o.rel.k = "ok" /\ ~TextAgrees(o.rel.str, d.rel, HasRedundantSlash(d.rel)) THEN "accepted-formats-differently"
+                   ELSE ""),
+        (* resource.NewIdentityFromURL reads the last Type/id of any URL (unversioned); an absolute history URL is *)
+        (* read by resource.NewIdentityFromHistoryURL                                                                *)
+        Chk("rurl", IF isRest /\ sp.c.ver = "" THEN IdParseVerdict(o.rurl, o.rurl2, TRUE, sp.c)
+                    ELSE IF Crashed(o.rurl) THEN CrashOf(o.rurl) ELSE IF Crashed(o.rurl2) THEN "reparse-" \o CrashOf(o.rurl2)
+                    ELSE IF o.rurl.k = "ok" /\ ~SameId(o.rurl2, o.rurl) THEN "accepted-inconsistent" ELSE ""),
+        Chk("rhist", IF Crashed(o.rhist) THEN CrashOf(o.rhist)
+                     ELSE IF isRest /\ sp.c.ver # "" /\ sp.c.base # "" /\ ~d.red /\ o.rhist.k # "ok" THEN "rejected-valid"
+                     ELSE IF isRest /\ o.rhist.k = "ok" /\ ~IdEq(o.rhist, sp.c.type, sp.c.rid, sp.c.ver) THEN "wrong-components"
+                     ELSE "") >>
 
 (* ---- "strongweak": Typed / TypedFromIdentity vs Weak ---------------------- *)
 ChecksStrongWeak(o, cs, d) ==
@@ -431,6 +449,10 @@ ChecksFragRef(o, cs, d) ==
         Chk("uri", one(o.ulit, typed(o.ulit))),
         Chk("uri-notype", one(o.nlit, untyped(o.nlit))),
         Chk("equal-info", IF o.flit.k = "ok" /\ o.ulit.k = "ok" /\ ~SameLit(o.flit, o.ulit) THEN "fragment-uri-differ" ELSE ""),
+        (* IdentityOf of a typed fragment reference: an error, or the fragment's own components *)
+        Chk("identity", IF Crashed(o.fid) THEN CrashOf(o.fid) ELSE IF Crashed(o.uid) THEN CrashOf(o.uid)
+                        ELSE IF o.fid.k = "ok" /\ ~IdEq(o.fid, cs.type, cs.rid, "") THEN "wrong-components"
+                        ELSE IF o.uid.k = "ok" /\ ~IdEq(o.uid, cs.type, cs.rid, "") THEN "wrong-components" ELSE ""),
         Chk("is-reflexive", IF Crashed(o.isFF) \/ Crashed(o.isUU) \/ ~o.isFF.b \/ ~o.isUU.b THEN "not-reflexive" ELSE ""),
         Chk("is-symmetric", IF Crashed(o.isFU) \/ Crashed(o.isUF) \/ o.isFU.b # o.isUF.b THEN "not-symmetric" ELSE "") >>
 
@@ -458,7 +480,38 @@ ChecksCanon(o, cs, d) ==
         Chk("ctor", IF ~built THEN "" ELSE IF Crashed(o.ctor) THEN CrashOf(o.ctor)
                     ELSE IF cs.base # "" /\ o.ctor.k # "ok" THEN "rejected-valid"
                     ELSE IF o.ctor.k = "ok" /\ ~(CanEq(o.ctor, cs.base, cs.ver, cs.rid) /\ o.ctor.str = text) THEN "wrong-components"
+                    ELSE ""),
+        (* a canonical resource with this url, version and id: FromResource, VersionedFromResource, *)
+        (* FragmentFromResource, canonical.IdentityOf                                                *)
+        Chk("resource", IF ~built THEN ""
+                    ELSE IF Crashed(o.fromRes) THEN CrashOf(o.fromRes) ELSE IF Crashed(o.verRes) THEN CrashOf(o.verRes)
+                    ELSE IF Crashed(o.fragRes) THEN CrashOf(o.fragRes) ELSE IF Crashed(o.idRes) THEN CrashOf(o.idRes)
+                    ELSE IF o.fromRes.k # "ok" \/ o.verRes.k # "ok" \/ o.fragRes.k # "ok" THEN "no-string"
+                    ELSE IF o.fromRes.s # cs.base \/ o.verRes.s # CanonFormat(cs.base, cs.ver, "")
+                            \/ o.fragRes.s # CanonFormat(cs.base, "", cs.rid) THEN "format-differs"
+                    ELSE IF cs.base # "" /\ ~(CanEq(o.idRes, cs.base, cs.ver, "") /\ o.idRes.str = CanonFormat(cs.base, cs.ver, "")) THEN "wrong-components"
                     ELSE "") >>
+
+(* ---- "fromres": a resource of the type with this id and meta.versionId:    *)
+(*      resource.IdentityOf / URIString / VersionedURIString,                  *)
+(*      reference.TypedFromResource / WeakRelativeVersioned                    *)
+ChecksFromRes(o, cs, d) ==
+  LET unv == cs.type \o "/" \o cs.rid
+      t == o.typed
+      w == o.weakv
+  IN << Chk("identity", IF Crashed(o.ident) THEN CrashOf(o.ident)
+                        ELSE IF ~IdEq(o.ident, cs.type, cs.rid, cs.ver) THEN (IF o.ident.k # "ok" THEN "rejected-valid" ELSE "wrong-components")
+                        ELSE IF o.ident.str # d.rel THEN "format-differs" ELSE ""),
+        Chk("uri", IF Crashed(o.strs) THEN CrashOf(o.strs)
+                   ELSE IF o.strs.uri # unv \/ o.strs.vok # (cs.ver # "") \/ (cs.ver # "" /\ o.strs.vuri # d.rel) THEN "format-differs" ELSE ""),
+        Chk("typed", IF Crashed(t) THEN CrashOf(t)
+                     ELSE IF d.idvalid /\ t.k # "ok" THEN "rejected-valid"
+                     ELSE IF t.k = "ok" /\ ~(t.shape = "typed" /\ t.type = cs.type /\ t.rid = cs.rid /\ t.hist = "" /\ t.tfield = cs.type) THEN "wrong-components"
+                     ELSE ""),
+        Chk("weak-versioned", IF Crashed(w) THEN CrashOf(w)
+                     ELSE IF d.idvalid /\ cs.ver # "" /\ w.k # "ok" THEN "rejected-valid"
+                     ELSE IF w.k = "ok" /\ ~(cs.ver # "" /\ w.shape = "uri" /\ w.uri = d.rel /\ w.tfield = cs.type) THEN "wrong-components"
+                     ELSE "") >>
 
 (* ---- "isrel": reference.Is on all pairs of the twelve references ---------- *)
 (* m[i][j] is "T", "F" or "P" (panic / timeout)                               *)
@@ -486,7 +539,7 @@ ChecksRaw(o, cs, d) ==
   \o ChecksCanon(o, cs, d)
 
 AspectsOf(kind) ==
-  CASE kind = "rest"  -> {"identity", "litfmt", "litparse", "identurl", "strongweak", "readback"}
+  CASE kind = "rest"  -> {"identity", "litfmt", "litparse", "identurl", "strongweak", "readback", "fromres"}
     [] kind = "frag"  -> {"litparse", "identurl", "fragref", "readback"}
     [] kind = "urn"   -> {"litparse", "identurl", "weakref", "readback"}
     [] kind = "canon" -> {"canon", "litparse"}
@@ -506,6 +559,7 @@ ChecksOf(o, cs, d) ==
     [] o.aspect = "weakref"    -> ChecksWeakRef(o, cs, d)
     [] o.aspect = "canon"      -> ChecksCanon(o, cs, d)
     [] o.aspect = "isrel"      -> ChecksIsRel(o, cs, d)
+    [] o.aspect = "fromres"    -> ChecksFromRes(o, cs, d)
     [] o.aspect = "raw"        -> ChecksRaw(o, cs, d)
     [] OTHER -> << Chk("aspect", "malformed") >>
 
